@@ -51,10 +51,24 @@ def load_modules():
 _SMALL = {}
 
 
-def small_certificate():
+def small_certificate(pad=0):
     """A small self-signed P-256 certificate for "localhost" (the whole server flight then fits one datagram);
-    generated once per process."""
+    generated once per process.  pad > 0 (cfg "smallcert": <int> > 1): about `pad` more bytes, through additional DNS names -
+    sweeps where the handshake flight ends in its datagram."""
+    if pad and pad > 1:
+        if pad not in _SMALL_PAD:
+            _SMALL_PAD[pad] = _make_small(pad)
+        return _SMALL_PAD[pad]
     if not _SMALL:
+        _SMALL.update(_make_small(0))
+    return _SMALL
+
+
+_SMALL_PAD = {}
+
+
+def _make_small(pad):
+    if True:
         import datetime
         from cryptography import x509
         from cryptography.hazmat.primitives import hashes, serialization
@@ -65,11 +79,12 @@ def small_certificate():
         cert = (x509.CertificateBuilder().subject_name(name).issuer_name(name).public_key(key.public_key())
                 .serial_number(4711).not_valid_before(now - datetime.timedelta(days=1))
                 .not_valid_after(now + datetime.timedelta(days=30))
-                .add_extension(x509.SubjectAlternativeName([x509.DNSName("localhost")]), critical=False)
+                .add_extension(x509.SubjectAlternativeName(
+                    [x509.DNSName("localhost")] + [x509.DNSName("p%02d.%s.example" % (i, "x" * 40)) for i in range(pad // 54)]
+                    + ([x509.DNSName("q." + "y" * max(1, pad % 54 - 4))] if pad % 54 > 6 else [])), critical=False)
                 .add_extension(x509.BasicConstraints(ca=True, path_length=None), critical=True)
                 .sign(key, hashes.SHA256()))
-        _SMALL.update(cert=cert, key=key, pem=cert.public_bytes(serialization.Encoding.PEM))
-    return _SMALL
+        return dict(cert=cert, key=key, pem=cert.public_bytes(serialization.Encoding.PEM))
 
 
 class SeededUrandom:
@@ -174,7 +189,7 @@ class Sim:
         c = self._base_config(True)
         c.server_name = self.cfg.get("server_name") or "localhost"
         if self.cfg.get("smallcert"):
-            c.load_verify_locations(cadata=small_certificate()["pem"])
+            c.load_verify_locations(cadata=small_certificate(self.cfg.get("smallcert"))["pem"])
         else:
             c.load_verify_locations(cafile=os.path.join(TESTS, "pycacert.pem"))
         if self.cfg.get("session_ticket") is not None:
@@ -217,7 +232,7 @@ class Sim:
         c = self._base_config(False)
         cert = "ssl_cert_with_chain.pem" if self.cfg["chain"] else "ssl_cert.pem"
         if self.cfg.get("smallcert"):
-            sc = small_certificate()
+            sc = small_certificate(self.cfg.get("smallcert"))
             c.certificate, c.certificate_chain, c.private_key = sc["cert"], [], sc["key"]
         else:
             c.load_cert_chain(os.path.join(TESTS, cert), os.path.join(TESTS, "ssl_key.pem"))
@@ -256,6 +271,9 @@ class Sim:
         """aioquic has no configuration option for the stream-count limits it advertises (fixed 128);
         a small limit is set on the freshly created object before it serialises its transport
         parameters, to give its *peer* a small limit."""
+        cl = (self.cfg.get("cid_limit") or {}).get("c" if conn._is_client else "s")
+        if cl:                                     # cfg "cid_limit": {"c": n, "s": n} - the active_connection_id_limit to advertise
+            conn._local_active_connection_id_limit = cl
         ms = self.cfg.get("max_streams")
         if ms:
             conn._local_max_streams_bidi.value = conn._local_max_streams_bidi.sent = ms
@@ -312,6 +330,13 @@ class Sim:
             if e is None:
                 break
             self._log_event(ep, e, E)
+            # cfg "on_negotiated": {ep: [sid, n]} - the application reacts to ProtocolNegotiated inside its event handler, i.e.
+            # before the transmit that follows (a server pushing 0.5-RTT data with its first flight)
+            hook = (self.cfg.get("on_negotiated") or {}).get(ep)
+            if hook and isinstance(e, E.ProtocolNegotiated):
+                sid, n = hook
+                _, r2 = self._guard(ep, "write", lambda: conn.send_stream_data(sid, payload(sid, 0, n), end_stream=False))
+                self.ev("api", ep=ep, call="write", sid=sid, off=0, n=n, fin=False, raised=r2 or "")
         if self.terminated[ep]:
             return
         st0 = self._st(conn)
